@@ -47,7 +47,18 @@ RULE = ("complete product sign_response x sign_assertion x encrypt_assertion x e
         "(entry, flags, certificate source, advice shape) cells in which encryption was requested")
 TRUSTED = ["xmlsec1 stand-in (harness/standin/xmlsec1.py: real RSA-OAEP + 3DES/AES-CBC, sign/verify)",
            "abstraction harness/c16.py:abstract_wire (xml.etree reader + trial decryption with every fixture key)",
-           "marker search in the wire bytes (raw substring search)"]
+           "marker search in the wire bytes (raw substring search)",
+           "translator harness/py2coq2.py + coq/theories/Base/Py2.v (source text -> Gallina, fail-closed; not modelled: "
+           "aliasing of mutable objects, set order, Unicode case mapping, generators' laziness), used by "
+           "harness/c16.py:regenerate_tables for entity.py:Entity.has_encrypt_cert_in_metadata, "
+           "server.py:Server._authn_response, sigver.py:SecurityContext.decrypt, "
+           "response.py:AuthnResponse.find_encrypt_data_assertion, response.py:AuthnResponse.find_encrypt_data, "
+           "response.py:AuthnResponse.decrypt_assertions, response.py:AuthnResponse._assertion, "
+           "sigver.py:pre_encrypt_assertion, sigver.py:CryptoBackendXmlSec1.encrypt_assertion (coq/gen/C16Src2.v; "
+           "theorems c16_source2_*); the translation specs of harness/c16.py:source2_items: external calls as extra "
+           "arguments, itertools.chain(a, b) read as list(a) + list(b), the effect of "
+           "assertion.advice.assertion.append / encrypted_assertion.add_extension_element(s) on their receiver is "
+           "external (two-level attribute path), exception class parents EXC_PARENTS"]
 ASSUMPTIONS = ["encryption is ideal: a ciphertext opens only with the private key of the certificate it was made for and "
                "any damage makes it unopenable (CBC malleability of XML-Enc and side channels are out of scope; the "
                "damaged-ciphertext cases use damage that deterministically breaks RSA-OAEP, the padding or the XML)",
@@ -100,6 +111,174 @@ EXTRA_SOURCES = [
     ([("spenc2", "encryption")], "sp", "sp"),
     ([("sp", "signing"), ("spenc2", "signing")], None, None),
 ]
+
+
+# ------------------------------------------------------------------------------------ source tie (translator v2)
+# exception classes of saml2.sigver / saml2.response that the translated functions raise or catch (name -> ancestors)
+EXC_PARENTS = {
+    "SAMLError": ["Exception"],
+    "SigverError": ["SAMLError", "Exception"],
+    "XmlsecError": ["SigverError", "SAMLError", "Exception"],
+    "DecryptError": ["XmlsecError", "SigverError", "SAMLError", "Exception"],
+    "EncryptError": ["XmlsecError", "SigverError", "SAMLError", "Exception"],
+    "SignatureError": ["XmlsecError", "SigverError", "SAMLError", "Exception"],
+    "VerificationError": ["SAMLError", "Exception"],
+}
+# keyword arguments of Entity._response as Server._authn_response passes them, in the order of the argument list
+# the translated call hands to the external function response_ext (after the 6 positional arguments)
+RESPONSE_KW = ["sp_entity_id", "encrypt_assertion", "encrypt_cert_advice", "encrypt_cert_assertion",
+               "encrypt_assertion_self_contained", "encrypted_advice_attributes", "sign_assertion", "pefim", "sign_alg",
+               "digest_alg", "assertion"]
+AUTHN_RESPONSE_PARAMS = [
+    "self", "in_response_to", "consumer_url", "sp_entity_id", "identity", "name_id", "status", "authn", "issuer", "policy",
+    "sign_assertion", "sign_response", "best_effort", "encrypt_assertion", "encrypt_cert_advice", "encrypt_cert_assertion",
+    "authn_statement", "encrypt_assertion_self_contained", "encrypted_advice_attributes", "pefim", "sign_alg", "digest_alg",
+    "farg", "session_not_on_or_after"]
+
+
+def _fixed_kw(name, expected, kw):
+    if sorted(kw) != sorted(expected):
+        from harness import py2coq2
+        raise py2coq2.Untranslatable("%s: keyword arguments %s, expected %s" % (name, sorted(kw), sorted(expected)))
+
+
+def _call_response(a, kw):
+    from harness import py2coq2
+    _fixed_kw("self._response", RESPONSE_KW, kw)
+    if len(a) != 6:
+        raise py2coq2.Untranslatable("self._response: %d positional arguments, expected 6" % len(a))
+    return "(response_ext (PList [%s]))" % "; ".join(list(a) + [kw[k] for k in RESPONSE_KW])
+
+
+def _call_setup(a, kw):
+    from harness import py2coq2
+    if len(a) != 11 or not set(kw) <= {"farg", "session_not_on_or_after"}:
+        raise py2coq2.Untranslatable("self.setup_assertion: unexpected argument shape")
+    return "(setup_ext (PList [%s]))" % "; ".join(list(a) + [kw.get("farg", "PNone"), kw.get("session_not_on_or_after", "PNone")])
+
+
+def _call_presig(a, kw):
+    _fixed_kw("pre_signature_part", ["sign_alg", "digest_alg"], kw)
+    return "(presig_ext (PList [%s]))" % "; ".join(list(a) + [kw["sign_alg"], kw["digest_alg"]])
+
+
+def _call_check_sig_kw(a, kw):
+    from harness import py2coq2
+    _fixed_kw("self.sec.check_signature", ["origdoc", "node_name", "issuer"], kw)
+    if len(a) != 1:
+        raise py2coq2.Untranslatable("self.sec.check_signature: %d positional arguments, expected 1" % len(a))
+    return "(check_sig %s %s %s %s)" % (a[0], kw["origdoc"], kw["node_name"], kw["issuer"])
+
+
+def source2_items():
+    """(source file, qualified name, translation spec) of the functions that coq/theories/C16/Source2.v proves equal
+    to the model.  External calls (metadata, xmlsec1, XML object construction, other methods) are extra parameters of
+    the Gallina definitions; Source2.v states what it assumes about them as Section hypotheses."""
+    sdir = os.path.join(env.SRC, "saml2")
+    ent, sig, rsp, srv = (os.path.join(sdir, f) for f in ("entity.py", "sigver.py", "response.py", "server.py"))
+    find_eda = lambda a: "(src2_find_encrypt_data_assertion v_self %s)" % a[0]  # noqa: E731  (the translated callee itself)
+    return [
+        (ent, "Entity.has_encrypt_cert_in_metadata", {
+            "name": "src2_has_encrypt_cert_in_metadata", "params": ["self", "sp_entity_id"],
+            "extra_params": [("certs_ext", "pyval -> pyval -> pyval -> pyval -> pyval")],
+            "calls": {"self.metadata.certs": lambda a: "(certs_ext v_self %s %s %s)" % tuple(a)}}),
+        (srv, "Server._authn_response", {
+            "name": "src2_authn_response", "params": AUTHN_RESPONSE_PARAMS,
+            "extra_params": [("issuer_ext", "pyval -> pyval"), ("setup_ext", "pyval -> pyval"), ("advice_ext", "pyval"),
+                             ("adv_append", "pyval -> pyval -> pyval"), ("presig_ext", "pyval -> pyval"),
+                             ("class_name_ext", "pyval -> pyval"), ("support_aidr", "pyval"), ("support_aq", "pyval"),
+                             ("store_ext", "pyval -> pyval -> pyval"), ("response_ext", "pyval -> pyval")],
+            "calls": {"self._issuer": lambda a: "(issuer_ext %s)" % a[0], "self.setup_assertion": _call_setup,
+                      "saml.Advice": lambda a: "advice_ext",
+                      # receiver is a two-level attribute path: the translator cannot rebind it, the effect is external
+                      "assertion.advice.assertion.append": lambda a: "(adv_append v_assertion %s)" % a[0],
+                      "pre_signature_part": _call_presig, "class_name": lambda a: "(class_name_ext %s)" % a[0],
+                      "self.support_AssertionIDRequest": lambda a: "support_aidr",
+                      "self.support_AuthnQuery": lambda a: "support_aq",
+                      "self.session_db.store_assertion": lambda a: "(store_ext %s %s)" % tuple(a),
+                      "self._response": _call_response}}),
+        (sig, "SecurityContext.decrypt", {
+            "name": "src2_decrypt", "params": ["self", "enctext", "key_file"],
+            "extra_params": [("crypto_decrypt", "pyval -> pyval -> pyval")], "exc_parents": EXC_PARENTS,
+            # itertools.chain(a, b) consumed by the comprehension: the elements of a followed by those of b
+            "calls": {"itertools.chain": lambda a: "(p2_add (p2_list %s) (p2_list %s))" % tuple(a),
+                      "self.crypto.decrypt": lambda a: "(crypto_decrypt %s %s)" % tuple(a),
+                      "errmsg.format": lambda a, kw: '(PStr "")'}}),
+        (rsp, "AuthnResponse.find_encrypt_data_assertion", {
+            "name": "src2_find_encrypt_data_assertion", "params": ["self", "enc_assertions"]}),
+        (rsp, "AuthnResponse.find_encrypt_data", {
+            "name": "src2_find_encrypt_data", "params": ["self", "resp"],
+            "calls": {"self.find_encrypt_data_assertion": find_eda}}),
+        (rsp, "AuthnResponse.decrypt_assertions", {
+            "name": "src2_decrypt_assertions",
+            "params": ["self", "encrypted_assertions", "decr_txt", "issuer", "verified"],
+            "extra_params": [("ee2e", "pyval -> pyval"), ("check_sig", "pyval -> pyval -> pyval -> pyval -> pyval"),
+                             ("class_name_ext", "pyval -> pyval")],
+            "exc_parents": EXC_PARENTS, "globals": {"saml": "PNone", "samlp": "PNone"},
+            "calls": {"extension_elements_to_elements": lambda a: "(ee2e %s)" % a[0],
+                      "self.sec.check_signature": _call_check_sig_kw,
+                      "class_name": lambda a: "(class_name_ext %s)" % a[0]}}),
+        (rsp, "AuthnResponse._assertion", {
+            "name": "src2_assertion", "params": ["self", "assertion", "verified"],
+            "extra_params": [("check_sig3", "pyval -> pyval -> pyval -> pyval"), ("class_name_ext", "pyval -> pyval"),
+                             ("issuer_ext", "pyval -> pyval"), ("authn_statement_ok_ext", "pyval -> pyval"),
+                             ("condition_ok_ext", "pyval -> pyval"), ("get_subject_ext", "pyval -> pyval")],
+            "exc_parents": EXC_PARENTS,
+            "calls": {"self.sec.check_signature": lambda a: "(check_sig3 %s %s %s)" % tuple(a),
+                      "class_name": lambda a: "(class_name_ext %s)" % a[0],
+                      "self.issuer": lambda a: "(issuer_ext v_self)",
+                      "self.authn_statement_ok": lambda a: "(authn_statement_ok_ext v_self)",
+                      "self.condition_ok": lambda a: "(condition_ok_ext v_self)",
+                      "self.get_subject": lambda a: "(get_subject_ext v_self)"}}),
+        (sig, "pre_encrypt_assertion", {
+            "name": "src2_pre_encrypt_assertion", "params": ["response"],
+            "extra_params": [("mk_ea", "pyval"), ("add_el", "pyval -> pyval -> pyval"), ("add_els", "pyval -> pyval -> pyval")],
+            # the two add_extension_element(s) calls change the new EncryptedAssertion in place (receiver is a
+            # two-level attribute path): external effect, the call itself is kept
+            "calls": {"EncryptedAssertion": lambda a: "mk_ea",
+                      "response.encrypted_assertion.add_extension_elements":
+                          lambda a: '(add_els (p2_attr v_response "encrypted_assertion") %s)' % a[0],
+                      "response.encrypted_assertion.add_extension_element":
+                          lambda a: '(add_el (p2_attr v_response "encrypted_assertion") %s)' % a[0]}}),
+        (sig, "CryptoBackendXmlSec1.encrypt_assertion", {
+            "name": "src2_xmlsec_encrypt_assertion",
+            "params": ["self", "statement", "enc_key", "template", "key_type", "node_xpath", "node_id"],
+            "extra_params": [("pre_enc", "pyval -> pyval"), ("make_temp_ext", "pyval -> pyval"), ("to_str", "pyval -> pyval"),
+                             ("run_xmlsec", "pyval -> pyval -> pyval"), ("decode_ext", "pyval -> pyval")],
+            "exc_parents": EXC_PARENTS, "classes": {"SamlBase": ["SamlBase", "Response"]},
+            "globals": {"ASSERT_XPATH": '(PStr "ASSERT_XPATH")'},
+            "calls": {"pre_encrypt_assertion": lambda a: "(pre_enc %s)" % a[0],
+                      "make_temp": _call_make_temp, "str": lambda a: "(to_str %s)" % a[0],
+                      "self._run_xmlsec": lambda a: "(run_xmlsec %s %s)" % tuple(a),
+                      "output.decode": lambda a: "(decode_ext v_output)"}}),
+    ]
+
+
+def _call_make_temp(a, kw):
+    from harness import py2coq2
+    _fixed_kw("make_temp", ["decode", "delete_tmpfiles"], kw)
+    if len(a) != 1:
+        raise py2coq2.Untranslatable("make_temp: %d positional arguments, expected 1" % len(a))
+    return "(make_temp_ext %s)" % a[0]
+
+
+SOURCE2_FUNCTIONS = ["entity.py:Entity.has_encrypt_cert_in_metadata", "server.py:Server._authn_response",
+                     "sigver.py:SecurityContext.decrypt", "response.py:AuthnResponse.find_encrypt_data_assertion",
+                     "response.py:AuthnResponse.find_encrypt_data", "response.py:AuthnResponse.decrypt_assertions",
+                     "response.py:AuthnResponse._assertion", "sigver.py:pre_encrypt_assertion",
+                     "sigver.py:CryptoBackendXmlSec1.encrypt_assertion"]
+
+
+def regenerate_tables(ctx):
+    """Translator v2: the functions of source2_items() as they read NOW -> coq/gen/C16Src2.v (fail-closed: a function
+    outside the subset becomes a PErr-valued definition and the theorem about it in C16/Source2.v stops checking)."""
+    from harness import common, py2coq2
+    src2 = py2coq2.regenerate(os.path.join(common.GEN, "C16Src2.v"), source2_items())
+    return {"file": "coq/gen/C16Src2.v", "changed": src2["changed"], "obligations": src2["obligations"],
+            "discharged": src2["discharged"], "untranslatable": list(src2["untranslatable"]), "source2": src2,
+            "functions": SOURCE2_FUNCTIONS,
+            "source_theorems": ["c16_source2_* (C16/Property.v, proofs in C16/Source2.v): each translated function applied to "
+                                "the encoded model input equals the encoded output of the model function it mirrors"]}
 
 
 # ------------------------------------------------------------------------------------ generation
